@@ -14,6 +14,10 @@ CHECKS = {
    text='Coq theorems (Properties_C03.v): for every length and limb content the models of mpn_add_n/sub_n/add_1/sub_1/add/sub/neg_n/com_n/lshift/rshift/cmp/zero_p/zero equal the exact integer function incl. returned carry/borrow/shifted-out bits; the C loops over a shared memory give the same result for every permitted overlap; the mpz_add/sub/add_ui/sub_ui/ui_sub/neg/abs/mul_2exp/set/swap models return the exact signed value and a well-formed object. The models are tied to /repo by running the extracted model and the freshly built library on the same generated cases.',
    note='Trusted: Coq kernel, extraction (ExtrOcamlBasic), OCaml/C drivers, generators. Modelled, not verified: the C source itself (tied by execution); assembly kernels add_err*/sub_err* are outside (C14).',
    design='6/C03'),
+ 'C10': dict(
+   text='Coq theorems (Properties_C10.v): limb-wise and_n/andn_n/ior_n/iorn_n/nand_n/nior_n/xor_n/xnor_n equal Z.land/Z.lor/Z.lxor (and complements) of the values for every length; popcount/hamdist count set bits; scan0/scan1 return the least matching bit at or above the start or the largest bit count exactly when none exists; mpz_and/ior/xor/com built from |x|-1, limb-wise op, +1 equal Z.land/Z.lor/Z.lxor/Z.lnot on signed values for all four sign combinations and all lengths, results well-formed; mpz_tstbit transcribed from tstbit.c equals Z.testbit; setbit/clrbit/combit equal Z.setbit/Z.clearbit/xor 2^k; mpz_popcount/hamdist incl. the "infinite" answers. Correspondence on 46 000 cases aimed at negative operands with low/interior zero limbs, -1, -2^k, complement blocks, bit indices below/at/above the length.',
+   note='mpz logical functions are modelled through the identities the C code uses, not each in-place loop; scan/popcount/hamdist at value level. Tied by execution. Trusted: Coq kernel, extraction, drivers, generators.',
+   design='6/C10'),
 }
 
 NA_REASON = 'check not built yet in this round (work in progress; the design in DESIGN.md section 6 claims it as applicable)'
